@@ -52,8 +52,16 @@ class Ctx:
         if os.path.exists(out):
             return out
         env = dict(os.environ, **GOENV)
+        hdir = os.path.join(VERIF, "harness")
+        if os.path.realpath(REPO) != "/repo":
+            # verification of a scratch worktree (mutation trials): private copy of the harness module
+            hdir = self.path("harness")
+            if not os.path.exists(hdir):
+                shutil.copytree(os.path.join(VERIF, "harness"), hdir)
+                gm = open(os.path.join(hdir, "go.mod")).read().replace("=> /repo", "=> " + os.path.realpath(REPO))
+                open(os.path.join(hdir, "go.mod"), "w").write(gm)
         cmd = ["go", "build", "-tags", "verif"] + (["-race"] if race else []) + ["-o", out, "./cmd/vrun"]
-        p = subprocess.run(cmd, cwd=os.path.join(VERIF, "harness"), env=env, capture_output=True, text=True)
+        p = subprocess.run(cmd, cwd=hdir, env=env, capture_output=True, text=True)
         if p.returncode != 0:
             raise Inconclusive("harness build failed:\n" + p.stdout + p.stderr)
         return out
